@@ -190,8 +190,10 @@ def theta_item(rng):
         return f"(0,{posnum(rng)}) {fix}"
     if r < 0.9:
         return f"(0,,{rng.choice(['10', 'INF'])})"
-    if r < 0.95:
+    if r < 0.93:
         return f"(0,{posnum(rng)},10)x{rng.randint(2, 4)}"
+    if r < 0.95:
+        return f"(0,{posnum(rng)})x{rng.randint(2, 3)}"
     return f"({posnum(rng)})"
 
 
